@@ -20,6 +20,6 @@ man = {"version": 1, "setup_cmd": "make -C /verif setup",
                    {"name": "lean-lemmas", "path": "lean/Mdpax/", "serves_properties": [p for p in ALL if (props.PROPS.get(p) or {}).get("lean")], "kind_free_text": "Lean 4.33 + Mathlib lemma library over the contracts (compiled by lean/build.py, axiom-audited)"},
                    {"name": "runtime-harness", "path": "replay/", "serves_properties": [p for p in ALL if (props.PROPS.get(p) or {}).get("bounded")], "kind_free_text": "bounded run-time contract checks and counter-model replay on the real code (never counted as proved)"}],
        "checks": checks, "not_applicable": na,
-       "notes": "exit codes: 0 held, 1 violation (VIOLATION line + replay file), 2 undecided, 3 engine error. Known findings: known_findings.json. See DESIGN.md."}
+       "notes": "exit codes: 0 held, 1 violation (VIOLATION line + replay file), 2 undecided, 3 engine error. Known findings: known_findings.json. Unguarded repairs of genuine defects in /repo (see DESIGN.md 10.3): " + "; ".join(k["record"] for k in json.load(open(os.path.join(ROOT, "known_findings.json"))) if str(k.get("status", "")).startswith("fixed"))}
 json.dump(man, open(os.path.join(ROOT, "MANIFEST.json"), "w"), indent=1)
 import jsonschema; jsonschema.validate(man, json.load(open("/root/.vp/MANIFEST.schema.json"))); print("MANIFEST ok:", [c["property_id"] for c in checks], "n/a:", [n["property_id"] for n in na])
